@@ -23,6 +23,8 @@ use assert_struct::assert_struct;
 #[derive(Debug)] enum F { V3 { a: i32, b: i32, c: i32 }, P2(i32, i32) }
 #[derive(Debug)] struct TS2(i32, i32);
 #[derive(Debug)] struct Outer<T> { inner: T, n: i32 }
+#[derive(Debug)] struct Acc { userName: String, ID: i32, r#type: i32, snake_case: i32 }
+fn acc() -> Acc { Acc { userName: "alice".to_string(), ID: 7, r#type: 1, snake_case: 2 } }
 '''
 
 # positions a struct pattern may occupy: (value wrapper, pattern wrapper)
@@ -86,6 +88,29 @@ def cases(rng, tier):
             for rest in (False, True):
                 out.append(("%s %d unknown field%s" % (kind, k, " + .." if rest else ""),
                             program(value_of(kind, k), pattern_of(kind, k, decl + ["zz"], rest)), False, "unknown"))
+            # a field that does not exist but LOOKS like one that does (case twin, stray underscore), after, before and instead
+            # of the real one: whatever the expansion does with field names (bindings, de-duplication of repeated fields) must not
+            # let rustc lose sight of a written name
+            twin = decl[0].upper()
+            for rest in (False, True):
+                out.append(("%s %d case twin of a field, after it%s" % (kind, k, " + .." if rest else ""),
+                            program(value_of(kind, k), pattern_of(kind, k, decl + [twin], rest)), False, "unknown"))
+                out.append(("%s %d case twin of a field, before it%s" % (kind, k, " + .." if rest else ""),
+                            program(value_of(kind, k), pattern_of(kind, k, [twin] + decl, rest)), False, "unknown"))
+                out.append(("%s %d case twin instead of the field%s" % (kind, k, " + .." if rest else ""),
+                            program(value_of(kind, k), pattern_of(kind, k, [twin] + decl[1:], rest)), False, "unknown"))
+                out.append(("%s %d field with a stray underscore%s" % (kind, k, " + .." if rest else ""),
+                            program(value_of(kind, k), pattern_of(kind, k, decl + [decl[0] + "_"], rest)), False, "unknown"))
+    # field names of other lexical shapes (camel case, capitals, raw identifier, snake case), each with its near misses
+    full_acc = ["userName: \"alice\"", "ID: 7", "r#type: 1", "snake_case: 2"]
+    out.append(("mixed-case fields, all listed", program("acc()", "Acc { %s }" % ", ".join(full_acc)), True, "control"))
+    out.append(("mixed-case fields, raw identifier written plainly is a keyword (parse error)", program("acc()", "Acc { userName: \"alice\", ID: 7, type: 1, snake_case: 2 }"), False, "unknown"))
+    for wrong in ("username: \"alice\"", "username.len(): 5", "UserName: \"alice\"", "user_name: \"alice\"", "id: 7", "Id: 7", "*ID: 7", "snakeCase: 2", "Snake_Case: 2", "r#Type: 1", "TYPE: 1"):
+        for rest in (False, True):
+            out.append(("mixed-case fields, near miss `%s` next to the real ones%s" % (wrong, " + .." if rest else ""),
+                        program("acc()", "Acc { %s, %s%s }" % (", ".join(full_acc), wrong, ", .." if rest else "")), False, "unknown"))
+            out.append(("mixed-case fields, near miss `%s` first%s" % (wrong, " + .." if rest else ""),
+                        program("acc()", "Acc { %s, %s%s }" % (wrong, ", ".join(full_acc), ", .." if rest else "")), False, "unknown"))
     # nested positions: every subset of the 3-field shapes
     positions = [p for p in POSITIONS if p != "root"]
     for kind in ("struct", "variant"):
